@@ -26,6 +26,7 @@ pub mod cli;
 pub mod trainc;
 pub mod dictops;
 pub mod common;
+pub mod scale;
 
 #[derive(Deserialize, Clone, Debug)]
 pub struct Finding {
